@@ -279,11 +279,94 @@ func c01Controller(rep *explore.Report, w *world.World, in c01Input, policy stri
 	}
 }
 
+// c01Journey: the set runs with slots s1 to quiescence, then the annotation is
+// edited to s2 (nil = removed) and the set runs to quiescence again: the pods
+// must be exactly desired(r, s2).
+func c01Journey(rep *explore.Report, w *world.World, r int32, s1, s2 []int32, policy string, editTemplate bool) {
+	sp := gen.Spec{Name: "web", Replicas: r, Slots: s1, Policy: policy, Strategy: gen.RU(0), Limit: 10, Template: 1}
+	set := sp.Build()
+	st := world.NewState()
+	st.API.Sets[set.Name] = set
+	st.SyncCaches()
+	w.Lag = 0
+	w.Load(st)
+	label := fmt.Sprintf("r=%d slots %v -> %v %s templateEdit=%v", r, s1, s2, policy, editTemplate)
+	var trace []string
+	settle := func(phase string) bool {
+		for i := 0; i < 60; i++ {
+			rec := w.Reconcile(world.NS+"/web", nil)
+			rep.AddStates(1, 1)
+			trace = append(trace, phase+": "+explore.OutcomeSig(rec))
+			if rec.Panic != nil || rec.Err != nil {
+				rep.Violation("C01", "controller-error", fmt.Sprintf("%s (%s): reconcile failed: err=%v panic=%v", label, phase, rec.Err, rec.Panic), nil)
+				return false
+			}
+			progressed := len(rec.Writes()) > 0
+			for _, l := range world.EnvProgress(w.S) {
+				world.Apply(w.S, l, 0)
+				progressed = true
+			}
+			if !progressed {
+				return true
+			}
+		}
+		rep.Violation("C01", "controller-does-not-settle", label+": still acting after 60 rounds", nil)
+		return false
+	}
+	if !settle("with " + fmt.Sprint(s1)) {
+		return
+	}
+	cur := w.S.API.Sets["web"].DeepCopy()
+	if len(s2) == 0 {
+		delete(cur.Annotations, "delete-slots")
+		if len(cur.Annotations) == 0 {
+			cur.Annotations = nil
+		}
+	} else {
+		if cur.Annotations == nil {
+			cur.Annotations = map[string]string{}
+		}
+		cur.Annotations["delete-slots"] = gen.SlotsAnn(s2)
+	}
+	if editTemplate {
+		cur.Spec.Template.Spec.Containers[0].Image = gen.Image(2)
+		cur.Generation++
+	}
+	w.S.PutSet(cur, 0)
+	if !settle("with " + fmt.Sprint(s2)) {
+		return
+	}
+	want := []int{}
+	ref := map[int32]bool{}
+	for _, x := range s2 {
+		ref[x] = true
+	}
+	for _, d := range oracle.Desired(r, ref) {
+		want = append(want, int(d))
+	}
+	var got []int
+	for _, n := range world.SortedKeys(w.S.API.Pods) {
+		if o, ok := oracle.OrdinalOf("web", n); ok {
+			got = append(got, o)
+		}
+	}
+	sort.Ints(got)
+	if fmt.Sprint(got) != fmt.Sprint(want) {
+		rep.Violation("C01", "controller-pods-after-slot-edit", fmt.Sprintf("%s: pods at %v, desired ordinals are %v", label, got, want), func() interface{} {
+			return map[string]interface{}{"kind": "c01-journey", "case": label, "trace": trace}
+		})
+	}
+	h := sha256.Sum256([]byte(label))
+	var k [16]byte
+	copy(k[:], h[:16])
+	rep.Count(k, true, "journey")
+}
+
 func init() {
 	register("c01", "desired ordinals: helpers and controller vs reference (bounded-exhaustive inputs)", func([]string) int {
 		thorough := explore.Tier() == "thorough"
 		rep := explore.NewReport("C01", "model_checking")
-		rep.Rule = "bounded-exhaustive inputs: replicas 0..6 (thorough 0..8) x {annotation absent, nil annotation map, 18 malformed/edge values, every subset of {-2..8} with <=4 (thorough <=5) members and int32-extreme sets, each in canonical/permuted/duplicated/whitespace encodings}; every helper compared with the reference model (first r non-negative integers not listed); the real controller run on an empty cluster under Parallel (one reconcile) and OrderedReady (reconcile/kubelet loop to quiescence) for every input with distinct slot sets. Non-trivial = the annotation denotes at least one slot."
+		rep.Rule = "bounded-exhaustive inputs: replicas 0..6 (thorough 0..8) x {annotation absent, nil annotation map, 18 malformed/edge values, every subset of {-2..8} with <=4 (thorough <=5) members and int32-extreme sets, each in canonical/permuted/duplicated/whitespace encodings}; every helper compared with the reference model (first r non-negative integers not listed); the real controller run on an empty cluster under Parallel (one reconcile) and OrderedReady (reconcile/kubelet loop to quiescence) for every input with distinct slot sets; plus edit journeys on the real controller: replicas 0..3, slots s1 then s2 over all pairs of subsets of {0..3} with <=2 members (s2 may remove the annotation), with and without a template edit, both policies, each phase run to quiescence: the pods must end at exactly desired(r, s2). Non-trivial = the annotation denotes at least one slot."
 		rep.Assumptions = []string{"for values that are not a JSON list of int32 the reference reads 'no slots' (the annotation codec's own contract)", "replicas near MaxInt32 are out of bound (the reconciler allocates a slice of that length)"}
 		var inputs []c01Input
 		c01Inputs(thorough, func(in c01Input) { inputs = append(inputs, in) })
@@ -326,6 +409,42 @@ func init() {
 		}
 		close(ch)
 		wg.Wait()
+		// edit journeys: slots s1, then s2 (also removed), with and without a template edit in between
+		type jb struct {
+			r      int32
+			s1, s2 []int32
+			pol    string
+			tmpl   bool
+		}
+		jch := make(chan jb, 64)
+		var jwg sync.WaitGroup
+		for i := 0; i < explore.Workers(); i++ {
+			jwg.Add(1)
+			go func() {
+				defer jwg.Done()
+				w := world.New()
+				for j := range jch {
+					c01Journey(rep, w, j.r, j.s1, j.s2, j.pol, j.tmpl)
+				}
+			}()
+		}
+		sub := gen.Subsets([]int32{0, 1, 2, 3}, 2)
+		for r := int32(0); r <= 3; r++ {
+			for _, s1 := range sub {
+				for _, s2 := range sub {
+					if fmt.Sprint(s1) == fmt.Sprint(s2) {
+						continue
+					}
+					for _, pol := range []string{"Parallel", "OrderedReady"} {
+						for _, t := range []bool{false, true} {
+							jch <- jb{r, s1, s2, pol, t}
+						}
+					}
+				}
+			}
+		}
+		close(jch)
+		jwg.Wait()
 		rep.Validated = rep.States
 		return rep.Finish()
 	})
